@@ -165,7 +165,9 @@ func zzvRealRoute(id string) zzvRoute {
 		return zzvRoute{kind: "cidr", cidr: routing.MustParseCIDR(fmt.Sprintf("10.%d.%d.0/24", 77+k/250, k%250))}
 	case 2:
 		d := fmt.Sprintf("r%d.zzv.example", k)
-		if k%12 == 2 && k > 3 { // some patterns of (almost) maximal length: 4 labels of 61 characters
+		// mix "long": every domain pattern has (almost) maximal length, 4 labels of 61 characters - the frame size
+		// becomes the binding limit; mix "short": none - the route count becomes the binding limit
+		if (zzvMix == "long" || (zzvMix == "" && k%12 == 2)) && k > 3 {
 			lab := strings.Repeat("x", 56) + fmt.Sprintf("%05d", k)
 			d = lab + "." + lab + "." + lab + "." + lab + ".zz"
 		}
@@ -177,6 +179,8 @@ func zzvRealRoute(id string) zzvRoute {
 		return zzvRoute{kind: "fwd", key: fmt.Sprintf("zzv-fwd-%d", k), target: fmt.Sprintf("127.0.0.1:%d", 1000+k)}
 	}
 }
+
+var zzvMix = "" // "", "short", "long": see zzvRealRoute
 
 func (r zzvRoute) real() string {
 	switch r.kind {
@@ -1438,15 +1442,31 @@ func TestZZVFloodScale(t *testing.T) {
 		t.Fatal("zzv: ZZV_SIZES not set")
 	}
 	cases, bad := 0, 0
+	type sc struct {
+		n   int
+		mix string
+	}
+	var plan []sc
 	for _, N := range sizes {
+		plan = append(plan, sc{N, "short"})
+	}
+	for _, s := range strings.Split(os.Getenv("ZZV_SIZES_LONG"), ",") {
+		if v, err := strconv.Atoi(strings.TrimSpace(s)); err == nil {
+			plan = append(plan, sc{v, "long"})
+		}
+	}
+	defer func() { zzvMix = "" }()
+	for _, c := range plan {
+		N := c.n
+		zzvMix = c.mix
 		// a - b - c up; d joins b later (replay).  a originates N routes, c originates 2.
 		ids := make([]string, N)
 		for i := range ids {
 			ids[i] = fmt.Sprintf("r%d", i+1)
 		}
-		names := []string{"a", "b", "c", "d"}
+		names := []string{"a", "b", "c", "d", "e"}
 		exit := map[string][]string{"a": ids, "c": {"r1", "r2"}}
-		hops := map[string]int{"a": 16, "b": 16, "c": 16, "d": 16}
+		hops := map[string]int{"a": 16, "b": 16, "c": 16, "d": 16, "e": 16}
 		nw := zzvNewNet(names, exit, hops, rng)
 		nw.up[zzvLinkKey("a", "b")] = true
 		nw.up[zzvLinkKey("b", "c")] = true
@@ -1457,7 +1477,7 @@ func TestZZVFloodScale(t *testing.T) {
 			cases++
 			got := nw.learnedSet(node, "a")
 			mi, ex := zzvDiff(want, got)
-			rec := map[string]any{"n": N, "stage": stage, "node": node, "announced": len(want), "learned": len(got),
+			rec := map[string]any{"n": N, "mix": c.mix, "stage": stage, "node": node, "announced": len(want), "learned": len(got),
 				"missing": len(mi), "extra": len(ex), "send_errors": nw.sendErr}
 			if len(mi)+len(ex) > 0 {
 				bad++
@@ -1500,6 +1520,28 @@ func TestZZVFloodScale(t *testing.T) {
 			t.Fatal("zzv: no termination")
 		}
 		check("reannounce", "d")
+		// 5. a new peer of the origin itself: a replays its own routes (e never saw an announcement)
+		nw.connect("a", "e")
+		tr.ev(map[string]any{"ev": "Connect", "l": []string{"a", "e"}})
+		if !nw.drain(tr, 100000) {
+			t.Fatal("zzv: no termination")
+		}
+		want = append([]string{}, ids...) // (the table replay does not carry the origin's own presence route)
+		sort.Strings(want)
+		cases++
+		gotE := []string{}
+		for _, r := range nw.learnedSet("e", "a") {
+			if r != "p" {
+				gotE = append(gotE, r)
+			}
+		}
+		if mi, ex := zzvDiff(want, gotE); len(mi)+len(ex) > 0 {
+			bad++
+			nw.pred("C06", "set-differs:replay-own", fmt.Sprintf("origin a replays its %d own routes to the new peer e, e holds %d of them (%d missing, %d foreign)",
+				len(want), len(gotE), len(mi), len(ex)), map[string]any{"n": N, "mix": c.mix})
+		}
+		zzvEmit("scale", map[string]any{"n": N, "mix": c.mix, "stage": "replay-own", "node": "e", "announced": len(want), "learned": len(gotE),
+			"missing": len(want) - len(gotE), "extra": 0})
 		nw.checkState(3)
 		for _, e := range nw.sendErr {
 			nw.pred("C06", "send-failed", "an announcement could not be sent: "+e, map[string]any{"n": N})
@@ -1508,7 +1550,7 @@ func TestZZVFloodScale(t *testing.T) {
 			p["n"] = N
 			zzvEmit("pred", p)
 		}
-		zzvEmit("scalecase", map[string]any{"n": N, "announce_frames": frames})
+		zzvEmit("scalecase", map[string]any{"n": N, "mix": c.mix, "announce_frames": frames})
 		nw.stop()
 	}
 	zzvEmit("summary", map[string]any{"sizes": sizes, "cases": cases, "bad": bad, "events": tr.n})
